@@ -56,6 +56,8 @@ func (u *Unit) ensureStrKeys() {
 	u.ctx.declareFun(stridFn, []string{SInt, SInt}, SInt)
 	u.ctx.declareFun(strptrFn, []string{SInt}, SInt)
 	u.ctx.declareFun(strlenFn, []string{SInt}, SInt)
+	// every identity has a representative string (strid is onto the identities); representatives are well-formed strings
+	u.ctx.assert("strkey", fmt.Sprintf("(forall ((i! Int)) (! (and (= (%s (%s i!) (%s i!)) i!) (<= 0 (%s i!)) (<= (%s i!) 1099511627776) (<= 0 (%s i!))) :pattern ((%s i!)) :pattern ((%s i!))))", stridFn, strptrFn, strlenFn, strlenFn, strlenFn, strptrFn, strptrFn, strlenFn))
 }
 
 // strKeyTerm returns the identity term of string value k and relates it to every key string seen before.
